@@ -22,7 +22,7 @@ func init() {
 	Registry["C09"] = Spec{
 		Fn:          c09,
 		Level:       "exploration",
-		Rule:        "callback histories over {append, reset+append (reuses the backing memory), overwrite in place (same row count, no Reset: slice-typed columns and the Values of LowCardinality / Enum written through their exported memory), hand-over of other column objects (Input[i].Data replaced inside the callback, also together with io.EOF and leftover rows), return nil unchanged, return nil after emptying the columns (a round without rows), io.EOF without rows, io.EOF with leftover rows, wrapped io.EOF with rows, other error}, initial rows zero or not: exhaustive up to 3 rounds before the terminal step for a fixed list of column sets (zero-copy: fixed-width integers, FixedString, ColRawOf, Bool, Float; copying: String, UUID, LowCardinality, Enum, Array, Map, Nullable) and random longer histories over random column sets from the whole catalogue, x {Disabled, None, LZ4, LZ4HC, ZSTD} x block sizes 1..3000 rows. Oracle: the Data blocks parsed by the reference codec from the bytes copied at Write time must equal [snapshot of the columns at the start of each round] + [one empty terminator] (tail rows on EOF included; nothing after a callback error except an optional Cancel). Non-trivial = >=2 rounds or a tail block; distinct = (history, column set, compression, rows)",
+		Rule:        "callback histories over {append, reset+append (reuses the backing memory), overwrite in place (same row count, no Reset: slice-typed columns and the Values of LowCardinality / Enum written through their exported memory), hand-over of other column objects (Input[i].Data replaced inside the callback, also together with io.EOF and leftover rows), return nil unchanged, return nil after emptying the columns (a round without rows), io.EOF without rows, io.EOF with leftover rows, wrapped io.EOF with rows, other error}, initial rows zero or not: exhaustive up to 3 rounds before the terminal step for a fixed list of column sets (zero-copy: fixed-width integers, FixedString, ColRawOf, Bool, Float; copying: String, UUID, LowCardinality, Enum, Array, Map, Nullable) and random longer histories over random column sets from the whole catalogue, x {Disabled, None, LZ4, LZ4HC, ZSTD} x block sizes 1..3000 rows x server revisions on both sides of the block-layout thresholds. Oracle: the Data blocks parsed by the reference codec from the bytes copied at Write time must equal [snapshot of the columns at the start of each round] + [one empty terminator] (tail rows on EOF included; nothing after a callback error except an optional Cancel). Non-trivial = >=2 rounds or a tail block; distinct = (history, column set, compression, rows)",
 		Assumptions: []string{"snapshots are taken by the harness inside OnInput before it mutates the columns", "Write calls are recorded by copying the bytes at call time"},
 		MinDistinct: 300,
 	}
@@ -261,7 +261,12 @@ func c09Run(r *core.Run, ci int64, rng *rand.Rand, set []string, hist []int, ini
 			return errUser
 		}
 	}
-	script := &simnet.Script{Rev: 54460}
+	// the server's revision: mostly current, sometimes below the thresholds that change the block
+	// layout (54454 custom-serialization flag, 51903 block info)
+	srvRev := []int{54460, 54460, 54476, 54453, 54449, 54429, 51903, 51902}[rng.Intn(8)]
+	neg := min(srvRev, 54460)
+	desc["server_rev"] = srvRev
+	script := &simnet.Script{Rev: srvRev}
 	sim := newSim(script)
 	compressed := comp != ch.CompressionDisabled
 	script.OnQuery = func(rq *ref.Query) []simnet.Item {
@@ -269,7 +274,7 @@ func c09Run(r *core.Run, ci int64, rng *rand.Rand, set []string, hist []int, ini
 		for _, c := range cols {
 			hdr.Cols = append(hdr.Cols, ref.Col{Name: c.name, Type: c.e.Type})
 		}
-		return []simnet.Item{{Data: simnet.PacketData(54460, ref.ServerDataCode, hdr, rq.Compression == 1, ref.MethodLZ4)}}
+		return []simnet.Item{{Data: simnet.PacketData(neg, ref.ServerDataCode, hdr, rq.Compression == 1, ref.MethodLZ4)}}
 	}
 	script.OnDataEnd = func() []simnet.Item { return []simnet.Item{{Data: simnet.PacketEnd()}} }
 	sim.Srv.InputExpected = func(*ref.Query) bool { return true }
